@@ -62,11 +62,15 @@ def build_degenerate(ds, ctx):
     elif fam == "one_hot":
         # delta tensor (+ optionally a second one): unfoldings with exactly zero singular values next to non-zero ones
         rng = np.random.default_rng(spec.get("seed", 0))
-        Y = ctx.lib(teneva.delta, n, [int(rng.integers(0, k)) for k in n], float(rng.integers(1, 4)))
+        Y = ctx.lib(teneva.delta, n, [int(rng.integers(0, k)) for k in n], [float(rng.integers(1, 4)), 1e-320][int(rng.integers(0, 6) == 0)])
         if rng.integers(0, 2):
             Y = ctx.lib(teneva.add, Y, ctx.lib(teneva.delta, n, [int(rng.integers(0, k)) for k in n], -2.0))
     elif fam == "const_v":
-        Y = ctx.lib(teneva.const, n, 2.5)
+        # constant data, also of subnormal magnitude (const keeps a value below 1e-16 in one core: that core is then all subnormal)
+        v = [2.5, 2.5, -0.75, 1e-320, 3e-310, 1e-300][spec.get("seed", 0) % 6]
+        if v < 1e-290:
+            ctx.label("subnormal_constant")
+        Y = ctx.lib(teneva.const, n, v)
     return Y
 
 
